@@ -180,7 +180,7 @@ class Ctx:
         for kind in sorted(self.violations):
             v = self.violations[kind]
             v['property'] = self.prop
-            entry = known.match(v, entries)
+            entry = known.match(v, entries, module)
             conf = confirm(module, v)
             if conf == 'diverged':
                 print(f'HARNESS-ERROR property={self.prop} kind={kind}: '
